@@ -321,7 +321,7 @@ def _add_passes(prop, extra):
     cfg["passes"] = list(cfg.get("passes", [{"variant": "verif"}])) + extra
 
 # AddressSanitizer + LeakSanitizer with the C library instrumented, on a pseudo-random subset of every sub-check
-for _p, _q, _t in [("C03", 6, 25), ("C05", 6, 25), ("C06", 6, 25), ("C08", 6, 25), ("C14", 10, 40), ("C15", 6, 25), ("C16", 6, 25), ("C12", 6, 25), ("C07", 4, 15)]:
+for _p, _q, _t in [("C03", 2, 25), ("C05", 6, 25), ("C06", 3, 25), ("C08", 6, 25), ("C14", 5, 40), ("C15", 6, 25), ("C16", 2, 25), ("C12", 2, 25), ("C07", 4, 15)]:
     _add_passes(_p, [
         {"variant": "asan", "params": {"scale_pct": _q}, "env": SAN_ENV_ASAN, "tiers": ["quick"], "budget_s": {"quick": 60, "thorough": 60}},
         {"variant": "asan", "params": {"scale_pct": _t}, "env": SAN_ENV_ASAN, "tiers": ["thorough"]},
